@@ -125,9 +125,14 @@ def envPathNode (name path : Str) (f : String) : PyVal :=
   else if f = "name" then .str name
   else .none
 
+/-- an attribute of type `Path | None`. -/
+def optPath : Option Str → PyVal
+  | some p => .path p
+  | none => .none
+
 /-- `DirectoryNode`: `root_dir : Path | None`, `pattern : str`. -/
 def envDirNode (name : Str) (root : Option Str) (pattern : Str) (f : String) : PyVal :=
-  if f = "root_dir" then (match root with | some r => .path r | none => .none)
+  if f = "root_dir" then optPath root
   else if f = "pattern" then .str pattern
   else if f = "name" then .str name
   else .none
@@ -143,7 +148,7 @@ def envNodeInfo (ni : NodeInfo) (f : String) : PyVal :=
   if f = "arg_name" then .str ni.argName
   else if f = "path" then .tuple ni.treePath
   else if f = "task_name" then .str ni.taskName
-  else if f = "task_path" then (match ni.taskPath with | some p => .path p | none => .none)
+  else if f = "task_path" then optPath ni.taskPath
   else .none
 
 def sigTask (base path : Str) : Str := sigOf sha Generated.sigTaskFields (envTask base path)
